@@ -186,6 +186,12 @@ class Evaluator:
                 return a + b
             if isinstance(e.op, ast.Mult):
                 return a * b
+            if isinstance(e.op, ast.Sub):
+                return a - b
+            if isinstance(e.op, ast.FloorDiv) and b:
+                return a // b
+            if isinstance(e.op, ast.Mod) and b and not isinstance(a, str):
+                return a % b
             raise AnalysisError("_parse_constant: operator outside the evaluated subset")
         if isinstance(e, ast.Call):
             f = e.func
